@@ -36,12 +36,19 @@ func (c *Ctx) orderChain(rule string, fn *ssa.Function, steps []chainStep) {
 					}
 				}
 			}
-			if moved != "" {
+			if hs := c.helperSites(fn, s.Spec); len(hs) > 0 {
+				// the phase moved into a private helper that only fn calls: the helper's
+				// call site stands for the phase
+				steps[i].Sites = hs
+				s = steps[i]
+				c.note("%s: phase %s is issued through a private helper of %s; its call site is used", rule, s.Name, funcKey(fn))
+			} else if moved != "" {
 				c.undecided(fmt.Sprintf("%s: phase %s is no longer called from %s but from %s: the ordering rule must be re-anchored", rule, s.Name, funcKey(fn), moved))
+				continue
 			} else {
 				c.fail(rule, "step present: "+s.Name, fn.Pos(), fmt.Sprintf("no call site of %s in %s or anywhere else in the package: the phase never runs", s.Name, funcKey(fn)))
+				continue
 			}
-			continue
 		}
 		c.ok(rule, "step present: "+s.Name, fn.Pos(), fmt.Sprintf("%d call site(s) of %s in %s", len(s.Sites), s.Name, funcKey(fn)))
 		if i == 0 || len(steps[i-1].Sites) == 0 {
@@ -725,9 +732,12 @@ func (c *Ctx) rulesC14(a *coreAnchors, la *LockAnalysis) {
 		}
 	}
 	f := a.emitEvents
-	starts := c.sitesIn(f, "iface:Tracer.TransitionStart")
-	ends := c.sitesIn(f, "iface:Tracer.TransitionEnd")
-	if len(starts) == 1 && len(ends) == 1 {
+	starts := c.sitesOrHelper(f, "iface:Tracer.TransitionStart")
+	ends := c.sitesOrHelper(f, "iface:Tracer.TransitionEnd")
+	if len(starts) == 1 && len(ends) == 1 && !c.callMatches(ends[0].Common(), "iface:Tracer.TransitionEnd") {
+		// issued through a private helper: the helper call itself is the anchor
+		c.check(allPathsFromPassThrough(starts[0], func(i ssa.Instruction) bool { return i == ssa.Instruction(ends[0]) }), "C14.once", "TransitionEnd phase post-dominates TransitionStart", ends[0].Pos(), "a path from TransitionStart returns without reaching the TransitionEnd helper")
+	} else if len(starts) == 1 && len(ends) == 1 {
 		// the End loop header must post-dominate Start: no return between.
 		// The call sits in a loop body; use the RLock of tracersMx that
 		// precedes the End loop as the anchor that must be passed.
@@ -749,7 +759,7 @@ func (c *Ctx) rulesC14(a *coreAnchors, la *LockAnalysis) {
 			c.check(allPathsFromPassThrough(starts[0], func(i ssa.Instruction) bool { return i == endLock }), "C14.once", "TransitionEnd phase post-dominates TransitionStart", ends[0].Pos(), "a path from TransitionStart returns without reaching the TransitionEnd loop")
 		}
 	}
-	for i, s := range c.sitesIn(f, "iface:Tracer.TransitionFinals") {
+	for i, s := range c.sitesOrHelper(f, "iface:Tracer.TransitionFinals") {
 		c.requireGuards("C14.once", "emitEvents>TransitionFinals"+nth(i), s, a.notCheck(), a.notCanceled())
 	}
 	c.floor("C14.once", 7)
@@ -789,7 +799,7 @@ func (c *Ctx) rulesC14(a *coreAnchors, la *LockAnalysis) {
 	c.check(nb >= 1, "C14.time", "TimeBefore has a writer", a.newTransition.Pos(), "none found")
 	// TimeAfter in emitEvents: a store from m.time() that is after setActiveStates and before TransitionFinals / TransitionEnd
 	setSites := c.sitesIn(f, funcKey(a.setActive))
-	fin := c.sitesIn(f, "iface:Tracer.TransitionFinals")
+	fin := c.sitesOrHelper(f, "iface:Tracer.TransitionFinals")
 	var accStore, cancStore ssa.Instruction
 	for _, w := range writesOfFieldIn(f, fTA) {
 		if !flowsFrom(w.Val, isTimeCall) {
@@ -1220,4 +1230,78 @@ func (c *Ctx) rulesC05topo() {
 	if n < 2 {
 		c.undecided(fmt.Sprintf("C05.topo: only %d functions replace the schema and notify the resolver (New and SetSchema expected)", n))
 	}
+}
+
+// rulesC14chk: a check mutation (CanAdd/CanRemove) reports an unchanged time.
+func (c *Ctx) rulesC14chk(a *coreAnchors) {
+	c.rule("C14.chk", "in newTransition every tick written into the predicted TimeAfter slice is guarded by Mutation.IsCheck == false: emitEvents never corrects TimeAfter for check mutations, so the prediction is what tracers see, and a check changes nothing")
+	fTA := c.field(pm, "Transition", "TimeAfter")
+	fChk := c.field(pm, "Mutation", "IsCheck")
+	nt := a.newTransition
+	if fTA == nil || fChk == nil || nt == nil {
+		return
+	}
+	n := 0
+	for _, w := range writesOfFieldIn(nt, fTA) {
+		if w.Kind != "assign" {
+			continue
+		}
+		pred := w.Val
+		for _, b := range nt.Blocks {
+			for _, ins := range b.Instrs {
+				st, ok := ins.(*ssa.Store)
+				if !ok {
+					continue
+				}
+				ia, ok := st.Addr.(*ssa.IndexAddr)
+				if !ok || !(ia.X == pred || sameSliceVar(ia.X, pred) || sameSliceVar(pred, ia.X)) {
+					continue
+				}
+				n++
+				c.requireGuards("C14.chk", fmt.Sprintf("newTransition: predicted tick write%s", nth(n-1)), ins, gFieldTruth("!mut.IsCheck", fChk, false))
+			}
+		}
+	}
+	if n < 3 {
+		c.undecided(fmt.Sprintf("C14.chk: only %d tick writes into the predicted TimeAfter found (3 expected)", n))
+	}
+}
+
+// helperSites: spec has no direct site in fn, but exactly one private helper
+// (called only from fn, not started with go) contains its sites: returns the
+// helper's call sites in fn. The helper then stands for the phase.
+func (c *Ctx) helperSites(fn *ssa.Function, spec string) []ssa.Instruction {
+	if spec == "" || len(c.sitesIn(fn, spec)) > 0 {
+		return nil
+	}
+	var helper *ssa.Function
+	for _, g := range c.Funcs {
+		if g == fn || g.Parent() != nil || topFunc(g).Pkg != topFunc(fn).Pkg {
+			continue
+		}
+		if len(c.sitesIn(g, spec)) == 0 {
+			continue
+		}
+		if helper != nil {
+			return nil
+		}
+		helper = g
+	}
+	if helper == nil || !c.hostedBy(helper, fn) {
+		return nil
+	}
+	return asInstrs(c.sitesIn(fn, funcKey(helper)))
+}
+
+// sitesOrHelper: direct sites of spec in fn, or the call sites of the private
+// helper that issues it.
+func (c *Ctx) sitesOrHelper(fn *ssa.Function, spec string) []ssa.CallInstruction {
+	if d := c.sitesIn(fn, spec); len(d) > 0 {
+		return d
+	}
+	var out []ssa.CallInstruction
+	for _, h := range c.helperSites(fn, spec) {
+		out = append(out, h.(ssa.CallInstruction))
+	}
+	return out
 }
